@@ -304,7 +304,7 @@ def wtBody (self : String → Val → Bool) : C → Val → Bool
   | .field name c, .fld name' v => name == name' && wtBody self c v
   | .unit, .unit => true
   | .pair a b, .pair x y => wtBody self a x && wtBody self b y
-  | .list c, v => decide (IntOk v.len) && wtItems (wtBody self c) v
+  | .list c, v => decide ((v.len : Int) ≤ MAX_FOUR_BYTES_INT) && wtItems (wtBody self c) v   -- `_read_size` rejects longer lists
   | .alt t c rest, .variant t' v =>
     if t' = t then wtBody self c v else (rest.isTable && wtBody self rest (.variant t' v))
   | .ref n, v => self n v
@@ -375,5 +375,201 @@ def encMap (env : Env) (fuel : Nat) (c : C) (m : List (Bytes × Val)) : Bytes :=
 /-- `read_type_map` & co.: the pairs in stream order (a Python dict remembers that order) -/
 def decMap (env : Env) (fuel : Nat) (c : C) (bs : Bytes) : Option (Val × Bytes) :=
   dec env fuel (C.dictOf c) bs
+
+/-! ## Layer 3b: `_skip_object` / `_skip_class` (what `extract_symbol` relies on) -/
+
+/-- tag numbers as `#define`d in librt_internal.c (256 = not defined: never matches a byte) -/
+def cTag (name : String) : Nat := ((cTags.find? fun p => p.1 == name).map (·.2)).getD 256
+
+/-- `_read_size`: a short int that must be neither long nor negative -/
+def readSize : Bytes → Option (Nat × Bytes)
+  | [] => none
+  | first :: bs =>
+    if (first : Int) = LONG_INT_TRAILER then none
+    else match decShort first bs with
+      | none => none
+      | some (n, r) => if n < 0 then none else some (n.toNat, r)
+
+/-- `_skip(data, n)` -/
+def skipBytes (n : Nat) (bs : Bytes) : Option Bytes := if bs.length < n then none else some (bs.drop n)
+
+/-- `_skip_str_bytes` -/
+def skipStr (bs : Bytes) : Option Bytes :=
+  match readSize bs with
+  | none => none
+  | some (n, r) => skipBytes n r
+
+/-- `_skip_int` -/
+def skipInt : Bytes → Option Bytes
+  | [] => none
+  | first :: bs =>
+    if (first : Int) ≠ LONG_INT_TRAILER then
+      (if first % 2 = 0 then some bs else if first / 2 % 2 = 0 then skipBytes 1 bs else skipBytes 3 bs)
+    else match bs with
+      | [] => none
+      | f2 :: bs2 =>
+        match decShort f2 bs2 with
+        | none => none
+        | some (ss, r) => if ss < 0 then none else skipBytes (ss / 2).toNat r
+
+/-- `n` repetitions of a skipper -/
+def skipN (f : Bytes → Option Bytes) : Nat → Bytes → Option Bytes
+  | 0, bs => some bs
+  | n + 1, bs => match f bs with
+    | none => none
+    | some r => skipN f n r
+
+/-- read a tag, then skip the object it announces -/
+def skipTagged (obj : Byte → Bytes → Option Bytes) : Bytes → Option Bytes
+  | [] => none
+  | t :: r => obj t r
+
+/-- `_skip_class` loop: tagged objects until END_TAG; `k` bounds the number of iterations (each consumes
+    at least the tag byte, so `k = length` is always enough) -/
+def skipClassLoop (obj : Byte → Bytes → Option Bytes) : Nat → Bytes → Option Bytes
+  | 0, _ => none
+  | _ + 1, [] => none
+  | k + 1, t :: r =>
+    if t = cTag "END_TAG" then some r
+    else match obj t r with
+      | none => none
+      | some r' => skipClassLoop obj k r'
+
+/-- one nesting level of `_skip_object(data, tag)`; `self` skips a nested object -/
+def skipObjectBody (self : Byte → Bytes → Option Bytes) (tag : Byte) (bs : Bytes) : Option Bytes :=
+  if tag = cTag "LITERAL_STR" ∨ tag = cTag "LITERAL_BYTES" then skipStr bs
+  else if tag = cTag "LITERAL_NONE" ∨ tag = cTag "LITERAL_FALSE" ∨ tag = cTag "LITERAL_TRUE" then some bs
+  else if tag = cTag "LIST_GEN" ∨ tag = cTag "TUPLE_GEN" then
+    match readSize bs with
+    | none => none
+    | some (n, r) => skipN (skipTagged self) n r
+  else if tag = cTag "LITERAL_INT" then skipInt bs
+  else if tag = cTag "INSTANCE" then
+    match bs with
+    | [] => none
+    | t2 :: r =>
+      if cTag "INSTANCE_STR" ≤ t2 ∧ t2 ≤ cTag "INSTANCE_OBJECT" then some r
+      else if t2 = cTag "INSTANCE_SIMPLE" then skipStr r
+      else if t2 = cTag "INSTANCE_GENERIC" then skipClassLoop self r.length r
+      else none
+  else if cTag "MYPY_FILE" < tag ∧ tag < cTag "RESERVED" then skipClassLoop self bs.length bs
+  else if tag = cTag "LIST_INT" then
+    match readSize bs with
+    | none => none
+    | some (n, r) => skipN skipInt n r
+  else if tag = cTag "LIST_STR" ∨ tag = cTag "LIST_BYTES" then
+    match readSize bs with
+    | none => none
+    | some (n, r) => skipN skipStr n r
+  else if tag = cTag "DICT_STR_GEN" then
+    match readSize bs with
+    | none => none
+    | some (n, r) => skipN (fun b => match skipStr b with
+        | none => none
+        | some b' => skipTagged self b') n r
+  else if tag = cTag "LITERAL_FLOAT" then skipBytes 8 bs
+  else if tag = cTag "LITERAL_COMPLEX" then skipBytes 16 bs
+  else if tag = cTag "LITERAL_SENTINEL" then (skipStr bs).bind skipStr
+  else none
+
+/-- `_skip_object` with `fuel` levels of nesting -/
+def skipObject : Nat → Byte → Bytes → Option Bytes
+  | 0 => fun _ _ => none
+  | f + 1 => skipObjectBody (skipObject f)
+
+/-- `extract_symbol(data)`: the bytes of one class body (the caller has read its tag) -/
+def extractSymbol (fuel : Nat) (bs : Bytes) : Option (Bytes × Bytes) :=
+  match skipClassLoop (skipObject fuel) bs.length bs with
+  | none => none
+  | some r => some (bs.take (bs.length - r.length), r)
+
+/-! ### which codecs the skipper can step over -/
+
+/-- what an environment entry is, from the skipper's point of view -/
+inductive Kind where
+  | other          -- not claimed to be skippable (CacheMeta, FileRawData, MypyFile …)
+  | body           -- a class body: tagged objects, then END_TAG  (`_skip_class`)
+  | one            -- exactly one tagged object                   (`read_tag` + `_skip_object`)
+  | inst           -- what follows the INSTANCE tag               (`_skip_instance`)
+deriving DecidableEq, Repr
+
+/-- position in which a codec is used -/
+inductive Mode where
+  | pay (t : Byte)   -- the payload of tag `t`, exactly
+  | ent (t : Byte)   -- (pairs only) payload of `t`, then zero or more further objects
+  | one              -- exactly one tagged object
+  | seq              -- zero or more tagged objects
+  | body             -- zero or more tagged objects, then END_TAG
+  | inst             -- secondary tag of an Instance and what follows it
+  | dictItem         -- bare str key, then exactly one tagged object
+
+def emptyPay (t : Byte) : Bool :=
+  t == cTag "LITERAL_NONE" || t == cTag "LITERAL_FALSE" || t == cTag "LITERAL_TRUE"
+
+def isClassTag (t : Byte) : Bool :=
+  decide (cTag "MYPY_FILE" < t) && decide (t < cTag "RESERVED") && t != cTag "INSTANCE"
+
+def isStrLike : C → Bool
+  | .str | .bytes => true
+  | .field _ c => isStrLike c
+  | _ => false
+
+/-- `skipOK κ m c`: everything codec `c` can emit in position `m` is what `_skip_object` / `_skip_class` /
+    `_skip_instance` step over, byte for byte (`κ` classifies the referenced environment entries). -/
+def skipOK (κ : String → Kind) : Mode → C → Bool
+  | m, .field _ c => skipOK κ m c
+  | .pay t, .unit => emptyPay t
+  | .seq, .unit => true
+  | .pay t, .int => t == cTag "LITERAL_INT"
+  | .pay t, .str => t == cTag "LITERAL_STR" || t == cTag "LITERAL_BYTES"
+  | .pay t, .bytes => t == cTag "LITERAL_STR" || t == cTag "LITERAL_BYTES"
+  | .pay t, .float => t == cTag "LITERAL_FLOAT"
+  | .one, .bool => true
+  | .seq, .bool => true
+  | .one, .flags _ => true
+  | .seq, .flags _ => true
+  | .body, .lit t => t == cTag "END_TAG"
+  | .pay t, .ref n => (isClassTag t && κ n == .body) || (t == cTag "INSTANCE" && κ n == .inst)
+  | .one, .ref n => κ n == .one
+  | .seq, .ref n => κ n == .one
+  | .pay t, .list c =>
+    ((t == cTag "LIST_GEN" || t == cTag "TUPLE_GEN") && skipOK κ .one c) ||
+    (t == cTag "LIST_INT" && c == .int) ||
+    ((t == cTag "LIST_STR" || t == cTag "LIST_BYTES") && isStrLike c) ||
+    (t == cTag "DICT_STR_GEN" && skipOK κ .dictItem c)
+  | .dictItem, .pair .str (.pair o .unit) => skipOK κ .one o
+  | .pay t, .pair a b =>
+    (t == cTag "LITERAL_COMPLEX" && a == .float && b == .pair .float .unit) ||
+    (t == cTag "LITERAL_SENTINEL" && a == .str && b == .pair .str .unit)
+  | .ent t, .pair a b => skipOK κ (.pay t) a && skipOK κ .seq b
+  | .one, .pair (.lit t) (.pair p .unit) => t != cTag "END_TAG" && skipOK κ (.pay t) p
+  | .seq, .pair (.lit t) (.pair p r) => t != cTag "END_TAG" && skipOK κ (.pay t) p && skipOK κ .seq r
+  | .seq, .pair (.lit t) .unit => emptyPay t
+  | .seq, .pair (.lit _) _ => false
+  | .seq, .pair a b => skipOK κ .seq a && skipOK κ .seq b
+  | .body, .pair (.lit t) (.pair p r) =>
+    if t == cTag "END_TAG" then false else skipOK κ (.pay t) p && skipOK κ .body r
+  | .body, .pair (.lit t) .unit => t == cTag "END_TAG"
+  | .body, .pair (.lit _) _ => false
+  | .body, .pair a b => skipOK κ .seq a && skipOK κ .body b
+  | .one, .fail => true
+  | .seq, .fail => true
+  | .inst, .fail => true
+  | .one, .alt t c rest => t != cTag "END_TAG" && skipOK κ (.pay t) c && skipOK κ .one rest
+  | .seq, .alt t c rest =>
+    t != cTag "END_TAG" && (skipOK κ (.pay t) c || (emptyPay t && skipOK κ .seq c) || skipOK κ (.ent t) c) &&
+    skipOK κ .seq rest
+  | .inst, .alt t c rest =>
+    ((decide (cTag "INSTANCE_STR" ≤ t) && decide (t ≤ cTag "INSTANCE_OBJECT") && c == .unit) ||
+     (t == cTag "INSTANCE_SIMPLE" && isStrLike c) ||
+     (t == cTag "INSTANCE_GENERIC" && skipOK κ .body c)) && skipOK κ .inst rest
+  | _, _ => false
+
+def kindOK (κ : String → Kind) (k : Kind) (c : C) : Bool :=
+  match k with
+  | .other => true
+  | .body => skipOK κ .body c
+  | .one => skipOK κ .one c
+  | .inst => skipOK κ .inst c
 
 end Codec
